@@ -15,7 +15,7 @@ for d in seeded/*/; do
   [ -n "${1:-}" ] && [[ "$id" != $1* ]] && { grep "^| $id " $out >> $out.tmp 2>/dev/null; continue; }
   prop=$(python3 -c "import json;print(json.load(open('$d/meta.json'))['property'])")
   git -C $WT apply /verif/$d/patch.diff || { echo "| $id | $prop | PATCH DOES NOT APPLY | |" >> $out.tmp; continue; }
-  ./check $prop $TIER --no-evidence --repo $WT > /tmp/seedrun.log 2>&1; rc=$?
+  /verif/bin/gosym check $prop --tier $TIER --no-evidence --repo $WT > /tmp/seedrun.log 2>&1; rc=$?
   git -C $WT checkout -q -- .
   msg=$(grep -m1 -A1 '^VIOLATION' /tmp/seedrun.log | tail -1 | sed 's/^ *//; s/|/\\|/g')
   case $rc in 1) v="DETECTED";; 0) v="missed";; *) v="inconclusive (exit $rc)"; msg=$(grep -m1 '^INCONCLUSIVE' /tmp/seedrun.log | sed 's/|/\\|/g');; esac
